@@ -77,6 +77,8 @@ def strategy(tier):
 
 
 def enumerate_cases(tier):
+    for case in limit_cases():
+        yield case
     catalogue = [[k, i, i * 5] for k in ALTERATION_KINDS for i in (0, 1)]
     for direction, mode, targets, accept in itertools.product(('A', 'B'), MODES, (['payload'], ['ext'], ['payload', 'ext']), (False, True)):
         if direction == 'B' and mode == 'kw':
@@ -101,6 +103,81 @@ def enumerate_cases(tier):
         bits = 8 * (plen + 16)
         yield {'direction': direction, 'mode': mode, 'targets': ['payload'], 'scope': 0, 'accept': True, 'plen': plen, 'seed': 3,
                'pcrc': 0, 'bcrc': 0, 'alterations': [['tgt-bit', 0, b] for b in range(bits)]}
+
+
+def limit_cases():
+    ''' A content-encryption algorithm with a plaintext limit (AES-CCM-16-64-128 with the 13-octet nonce RFC 9053
+    prescribes: 65535 octets) and targets around that limit, one or both of them. '''
+    for plen, extlen, targets in itertools.product((40, 65535, 65536), (100, 65535, 70000), (['payload'], ['ext'], ['payload', 'ext'])):
+        yield {'kind': 'limit', 'plen': plen, 'extlen': extlen, 'targets': targets, 'seed': 1}
+
+
+def execute_limit(case):
+    ''' Whatever the source does with a target it cannot encrypt, nothing half-done may leave: a target is either
+    covered by a BCB on the wire (and then is not the plaintext, and the receiver holding the key recovers the plaintext),
+    or it is not - and then its octets are the original ones (encrypted octets without the BCB that says how to decrypt
+    them are lost to everybody). '''
+    from vlib import bp_world as bw, ref9171 as r, bpconv, bpsec_util as bu, strat9174, refcose as rc
+    from bp.util import BundleContainer
+    from pycose import algorithms
+    from pycose.keys import SymmetricKey, keyparam, keyops
+    out = Outcome()
+
+    def ccm_key():
+        return SymmetricKey(k=bytes(range(16)), optional_params={keyparam.KpKid: b'k-ccm', keyparam.KpAlg: algorithms.AESCCM1664128,
+                                                                keyparam.KpKeyOps: [keyops.EncryptOp, keyops.DecryptOp]})
+    bw.reset()
+    src = bw.Node('dtn://srcnode/', tx_routes=[('.*', 'dtn://next/', None)], name='source')
+    src.bpsec.sym_key_store[b'k-ccm'] = ccm_key()
+    types = sorted({1 if t == 'payload' else 192 for t in case['targets']})
+    bu.add_policy(src, 'bcb', 'k-ccm', types, ivs=[bytes([0x41 + i]) * 13 for i in range(len(types))])
+    blocks = [dict(type=192, num=2, flags=0, crc_type=1, data=strat9174.content(int(case['extlen']), case['seed'] + 1).hex()),
+              dict(type=1, num=1, flags=0, crc_type=1, data=strat9174.content(int(case['plen']), case['seed']).hex())]
+    pri = dict(version=7, flags=0, crc_type=1, dest=['dtn', '//dst/svc'], src=['dtn', '//srcnode/app'], rpt=['dtn', 'none'],
+               ts=[789004000000, 5], lifetime=3600000, frag=None)
+    plain = {b['num']: b['data'] for b in blocks}
+    src.send(BundleContainer(bpconv.to_repo({'primary': pri, 'blocks': blocks})))
+    for esc in src.escapes():
+        out.fail('escape:%s@%s' % (esc.exc_type, esc.frame), 'exception escaped a main-loop callback at the source: %s' % esc.exc_msg[:100])
+    sent = src.sent()
+    feasible = all((case['plen'] if t == 'payload' else case['extlen']) <= 65535 for t in case['targets'])
+    out.label('limit', 'limit:feasible' if feasible else 'limit:infeasible', 'limit:sent-%d' % len(sent))
+    out.nontrivial = not feasible
+    desc = 'targets %s, payload %d octets, extension block %d octets' % (case['targets'], case['plen'], case['extlen'])
+    if feasible and len(sent) != 1:
+        out.fail('source-failed', 'every target is within the limit of the algorithm but %d bundles left the source (%s)' % (len(sent), desc))
+    for wire in sent:
+        try:
+            dec = r.strip(r.decode(wire))
+        except r.RefError as exc:
+            out.fail('source-not-wellformed', 'the source agent emitted a malformed bundle: %s' % exc)
+            continue
+        covered = set()
+        for bcb in rc.security_blocks(dec, 12):
+            covered.update(rc.parse_asb(bcb['data'])['targets'])
+        for blk in dec['blocks']:
+            if blk['num'] not in plain:
+                continue
+            same = blk['data'] == plain[blk['num']]
+            if blk['num'] in covered and same and plain[blk['num']]:
+                out.fail('plaintext-on-the-wire', 'target block %d travels in clear although a BCB targets it (%s)' % (blk['num'], desc))
+            if blk['num'] not in covered and not same:
+                out.fail('encrypted-without-bcb', 'block %d left the source changed (%d octets, original %d) and no BCB on the wire says how to '
+                         'recover it (%s)' % (blk['num'], len(blk['data']) // 2, len(plain[blk['num']]) // 2, desc))
+        if covered:
+            # the receiver with the key gets the plaintext back
+            bw.reset()
+            node = bw.Node('dtn://dst/', rx_routes=[('^dtn://dst/', 'deliver')], tx_routes=[('.*', 'dtn://next/', None)],
+                           accept_after_verify=True, name='dst')
+            node.bpsec.sym_key_store[b'k-ccm'] = ccm_key()
+            node.receive(wire)
+            recs = node.records()
+            got = {num: data.hex() for rec in recs[:1] for (_t, num, data) in rec['blocks']}
+            for num in covered:
+                if num in plain and got.get(num) != plain[num]:
+                    out.fail('receiver-does-not-recover', 'the receiver holding the key got %s octets for target %d, plaintext has %d (%s)'
+                             % (None if got.get(num) is None else len(got[num]) // 2, num, len(plain[num]) // 2, desc))
+    return out
 
 
 def pinned_cases():
@@ -211,6 +288,8 @@ def receive(wire, mode, accept, key_override=None, no_key=False):
 
 
 def execute(case):
+    if case.get('kind') == 'limit':
+        return execute_limit(case)
     from vlib import ref9171 as r, refcose as rc, bpsec_util as bu
     out = Outcome()
     if case['direction'] == 'B' and case['mode'] == 'kw':
